@@ -424,6 +424,7 @@ def check(pid, tier):
                for c in ucs if not c.trusted for lab, _ in c.ensures if lab.startswith("assume:")] + \
               [f"assumed exceptional clause of {c.target}: on {r.exc}: {e[7:]}"
                for c in ucs if not c.trusted for r in c.raises for e in r.ensures if e.startswith("assume:")] + \
+              [f"termination not claimed for {c.target}: {c.nonterminating}" for c in ucs if getattr(c, "nonterminating", None)] + \
               (["model:user_action: what a user action may do (A-user-action)"] if any(getattr(world.contracts.get(t), "user_effect", None) for t in used if t in world.contracts) else [])
     samples = [{"obligation": o.oid, "status": o.status, "backend": o.backend, "time_s": round(o.time_s, 2)} for o in real[:6]]
     bsum = [{k: v for k, v in b.items() if k != "violations"} | {"violations": len(b["violations"])} for b in bounded]
